@@ -408,7 +408,12 @@ let handle_io (toks : string list) : string =
     let baud = strip baud and cs = strip cs and par = strip par and stop = strip stop and flow = strip flow in
     let p = { sp_settings = { s_baud = baud_of_str baud; s_csize = csize_of_str cs; s_parity = parity_of_str par;
                               s_stop = stop_of_str stop; s_flow = flow_of_str flow };
-              sp_timeout = None; sp_fail = fail_of_str (List.hd (String.split_on_char ':' fail)) } in
+              sp_timeout = None;
+              sp_fail = (let f = List.hd (String.split_on_char ':' fail) in
+                         if String.length f > 5 && String.sub f 0 5 = "above" then FailNone else fail_of_str f);
+              sp_max_timeout = (let f = List.hd (String.split_on_char ':' fail) in
+                                if String.length f > 5 && String.sub f 0 5 = "above"
+                                then Some (num_big (String.sub f 5 (String.length f - 5))) else None) } in
     let r = match String.split_on_char '.' ctor with
       | ["CFG"; secs; nanos] -> configure_port p (N.add (N.mul (num_big secs) (num "1000000000")) (num nanos))
       | ["BUS"] -> serial_bus_try_new p
